@@ -5,6 +5,7 @@ CONSTANTS
   MaxDefs = 3
   MaxGets = 2
   InjLen = 0
+  Wide = {}
   Emit = TRUE
 INVARIANTS InjectConsistent StackEmptyWhenQuiet Precedence NoRecursion OnceBuilt LazyFactories
 VIEW View
